@@ -185,6 +185,48 @@ def devirtualise(body, by_path):
     return n
 
 
+def _norm_sig(sig):
+    import re
+    return re.sub(r"DefId\([^)]*\)", "D", sig or "")
+
+
+def rename_aliases(bodies, known, detail):
+    """A private inventory function that disappeared while exactly one new function with the same container, the same
+    signature and a similar set of callees appeared is the same function under a new name: map new -> old."""
+    if not detail:
+        return {}
+    present = {b["path"] for b in bodies if b["kind"] in ("Fn", "AssocFn")}
+    missing = [p for p in known if p not in present and p in detail]
+    new = [b for b in bodies if b["kind"] in ("Fn", "AssocFn") and b["path"] not in known]
+    out = {}
+    for m in missing:
+        d = detail[m]
+        cands = []
+        for b in new:
+            cont = b.get("impl_self") or b["path"].rsplit("::", 1)[0]
+            if cont != d.get("container") or _norm_sig(b.get("sig")).replace(b["path"].rsplit("::", 1)[-1], "") != d.get("sig", "").replace(m.rsplit("::", 1)[-1], ""):
+                continue
+            callees = set((blk["term"].get("resolved") or blk["term"].get("fn") or "?") for blk in b["blocks"] if blk["term"]["k"] == "call")
+            old = set(d.get("callees", []))
+            jac = len(callees & old) / max(1, len(callees | old))
+            if jac >= 0.5 or (not old and not callees):
+                cands.append((jac, b["path"]))
+        if len(cands) == 1 and cands[0][1] not in out:
+            out[cands[0][1]] = m
+    return out
+
+
+def apply_aliases(crate, aliases):
+    """Rename function paths (and the closures nested in them) throughout one crate's fact base."""
+    if not aliases:
+        return crate
+    txt = json.dumps(crate)
+    for newp, oldp in aliases.items():
+        txt = txt.replace(json.dumps(newp)[:-1] + '"', json.dumps(oldp)[:-1] + '"')
+        txt = txt.replace(json.dumps(newp)[:-1] + "::{", json.dumps(oldp)[:-1] + "::{")
+    return json.loads(txt)
+
+
 def normalise(crate_name, bodies, known):
     """bodies: list of body dicts of one crate (mutated in place). known: set of function paths of the inventory.
     Returns (absorbed_paths, report)."""
